@@ -157,7 +157,7 @@ def guard_case(args):
     elif tgt == 'foreign':
         path = 'other'
         files['other'] = b'FOREIGN CONTENT\n'
-        mt['other'] = {'older': T0 - 1000, 'equal': T0, 'newer': int(time.time()) + 1000}[spec['mtime_rel']]
+        mt['other'] = {'older': T0 - 1000, 'equal': T0, 'newer': int(time.time()) + 1000, 'zero': 0}[spec['mtime_rel']]      # (zero: 1970-01-01, a legal time)
     else:
         path = 'newfile'
     before = files.get(path if path != 'f1' else 'f1')
@@ -236,7 +236,11 @@ def multi_guard_case(args):
         # leave the buffer and come back (a switch to a loaded buffer reads nothing, so it must not refresh what the editor remembers of the file)
         away = R.choice([n for n in names if n != cur])
         script += b'e! %s\n' % away.encode() + R.choice([b'e! %s\n' % cur.encode(), b'e! #\n', b'e! %s\n' % cur.encode()])
-    cmd = R.choice([b'xa', b'xa', b'xa', b'wq', b'x', b'w', b'w', b'FOREIGN', b'FOREIGN'])
+    cmd = R.choice([b'xa', b'xa', b'xa', b'wq', b'x', b'w', b'w', b'FOREIGN', b'FOREIGN', b'AW', b'AW'])
+    if cmd == b'AW':
+        # autowrite: leaving a modified buffer writes it first - under the same guard as an explicit :w
+        script += b'se aw\n'
+        cmd = R.choice([b'e %s' % R.choice([n for n in names if n != cur] or [cur]).encode(), b'q', b'q', b'b 1', b'n'])
     foreign = None
     if cmd == b'FOREIGN':
         # an existing file that is open in ANOTHER buffer is as foreign to the current buffer as any other file
@@ -307,7 +311,7 @@ def run(tier, V):
     # guard truth table
     gjobs = []
     for tgt in ('own', 'foreign', 'absent'):
-        for rel in (('older', 'equal', 'newer') if tgt != 'absent' else ('equal',)):
+        for rel in (('older', 'equal', 'newer', 'zero') if tgt == 'foreign' else ('older', 'equal', 'newer') if tgt != 'absent' else ('equal',)):
             for bang in (False, True):
                 nm = '%s/%s/%s' % (tgt, rel, 'w!' if bang else 'w')
                 gjobs.append((vi, so, nm, {'target': tgt, 'mtime_rel': rel, 'bang': bang}))
@@ -329,7 +333,7 @@ def run(tier, V):
            'syscall_sequences': seqs, 'guard_cases': [g[2] for g in gjobs], 'exhaustive': True,
            'rule': ('for each buffer shape (empty / one line / one batch / several batches / lines >= 4096 / mixture) and save command, a dry run under the shim gives the open/write/close sequence of the save; '
                     'then EVERY position x EVERY kind (%s error returns; short counts 1, half, len-1) is injected, one fault per run (2 processes per fault: inspect file after the command; continue with :q, :b, :w!, :q). '
-                    'non-trivial = the shim log shows the fault fired (INJECTED).  guards: full truth table target {own, foreign-existing, absent} x mtime {older, equal, newer} x {w, w!}; + random scenarios with 2-3 buffers, files replaced/touched behind the editor, any buffer current, then w/wq/x/xa or a write to another open buffer\'s file without !.' % ','.join(err_kinds)),
+                    'non-trivial = the shim log shows the fault fired (INJECTED).  guards: full truth table target {own, foreign-existing, absent} x mtime {older, equal, newer; for the foreign file also 0} x {w, w!}; + random scenarios with 2-3 buffers, files replaced/touched behind the editor, any buffer current, then w/wq/x/xa or a write to another open buffer\'s file without !.' % ','.join(err_kinds)),
            'samples': [{'buffer': j[2], 'command': j[6], 'fault': j[7]} for j in jobs[::max(1, len(jobs) // 5)]][:6]}
     assumptions = ['a save fd is a descriptor opened with O_WRONLY|O_CREAT; ftruncate faults are outside the quantifier (open/write/close)',
                    'the retry after a failure is :w! (a torn write legitimately advanced the file\'s mtime)',
